@@ -63,6 +63,8 @@ pub fn exec(sc: &Scenario, st: &mut Stats) -> Option<Violation> {
     let mut restores = 0u64;
     let mut clone_cycles = 0u64;
     let mut warm_at = warm;
+    let mut logging = false;
+    let mut logged = 0u64;
     for (i, op) in sc.ops.iter().enumerate() {
         let mut single: Option<(crate::sut::Input, Fault)> = None;
         let (desc, skip, len, fault, every, reset_every, clone_every) = match op {
@@ -83,8 +85,18 @@ pub fn exec(sc: &Scenario, st: &mut Stats) -> Option<Violation> {
                 }
                 continue;
             }
+            Op::Format { .. } => {
+                // from here on the node is logged ({} and {:?} into a discarding sink) after every tick of the
+                // first 4096 and at every 4096th afterwards: formatting must stay read-only
+                logging = true;
+                continue;
+            }
             _ => continue,
         };
+        // Mixed: streams with an even seed switch the entry point in long phases (scalars for 2*sum+5 ticks, then
+        // bars, then DataItems, ...), the others per tick
+        let phased = spec.mode == Mode::Mixed && desc.seed % 2 == 0;
+        let dwell = 2 * sp as u64 + 5;
         crate::world::expand_gen(&desc, skip, len, fault, every, reset_every, |x, fk, reset| {
             // an explicit Feed op is a stream of one given tick
             let (x, fk) = match &single {
@@ -103,9 +115,13 @@ pub fn exec(sc: &Scenario, st: &mut Stats) -> Option<Violation> {
                 node = on(Side::Subject, || node.fork());
                 clone_cycles += 1;
             }
-            let (o, _) = on(Side::Subject, || node.feed(spec.mode, x));
+            let mode = if phased { [Mode::Scalar, Mode::Bar, Mode::Item][((t / dwell) % 3) as usize] } else { spec.mode };
+            let (o, _) = on(Side::Subject, || node.feed(mode, x));
             digest = fnv_u64(digest, o.bits()[0]);
             t += 1;
+            if logging && (t <= 4096 || t % 4096 == 0) {
+                logged += on(Side::Subject, || node.fmt_discard()) as u64;
+            }
             if t == warm_at {
                 live_warm = Some(alloc::live() - base);
                 allocs_warm = alloc::allocs();
@@ -215,6 +231,10 @@ pub fn exec(sc: &Scenario, st: &mut Stats) -> Option<Violation> {
     st.add("corrupt_ticks_delivered", faults_fired);
     st.add("resets_inside_streams", resets_done);
     st.add("restores_or_clone_handovers_in_mid_stream", restores);
+    st.add("bytes_logged_between_feeds", logged);
+    if spec.mode == Mode::Mixed {
+        st.bump("runs_fed_through_all_entry_points_in_turn");
+    }
     st.add("clone_cycles_inside_streams", clone_cycles);
     st.max("max_serialized_size_over_bound", max_size as f64 / b as f64);
     st.max("max_heap_growth_over_bound", max_growth as f64 / b as f64);
@@ -269,7 +289,17 @@ fn spec_for(kind: Kind, sum: usize, mode_sel: u64, split: u64) -> NodeSpec {
             (a, b, sum.saturating_sub(a + b).max(1))
         }
     };
-    let mode = if kind.has_scalar() { [Mode::Scalar, Mode::Bar, Mode::Item][(mode_sel % 3) as usize] } else { [Mode::Bar, Mode::Item][(mode_sel % 2) as usize] };
+    // a fifth of the nodes with a scalar entry point are fed through all their entry points in turn (per tick, or in
+    // long phases: see exec) - structures kept per entry point must stay bounded together
+    let mode = if kind.has_scalar() {
+        if mode_sel % 5 == 4 {
+            Mode::Mixed
+        } else {
+            [Mode::Scalar, Mode::Bar, Mode::Item][(mode_sel % 3) as usize]
+        }
+    } else {
+        [Mode::Bar, Mode::Item][(mode_sel % 2) as usize]
+    };
     NodeSpec { kind, params: Params::new(a, b, c, 2.0), mode, dflt: false }
 }
 
@@ -399,6 +429,10 @@ pub fn generate(rng: &mut Rng, tier: Tier) -> Scenario {
                 *clone_every = ce;
             }
         }
+    }
+    // 12% of the runs: the node is logged between feeds
+    if rng.chance(0.12) {
+        ops.insert(0, Op::Format { n: 0 });
     }
     Scenario { property: PROP.into(), stage: "seeded".into(), nodes: vec![spec], ops, workers: 0 }
 }
